@@ -135,6 +135,10 @@ class Ackermann:
         for it in items:
             by.setdefault(it[1].name(), []).append(it)
         for name, its in by.items():
+            if name == "FIN":
+                # finiteness predicate of REAL-mode terms (ops.FIN): left free per syntactically distinct term.  Fewer constraints = an
+                # over-approximation: `unsat` stays a proof; a `sat` model is, as always, only reported when its replay reproduces
+                continue
             for i in range(len(its)):
                 for j in range(i + 1, len(its)):
                     vi, di, ci, _ = its[i]
